@@ -188,3 +188,22 @@ def finish(ctx, t0, assumptions, level='other', selftest=None):
     print('%s: %d instance(s), %d satisfied, %d known finding(s), %d new violation(s)' % (
         ctx.prop, len(ctx.instances), len(ctx.instances) - len(ctx.findings), len(listed), len(new)))
     return rc
+
+
+def run_sub(ctx, mod, rename):
+    """Run another property's rule module on the same repo and import the instances of the rules named in `rename`
+    ({their rule id: our rule id}) into ctx.  Used where a rule of one property is also a necessary condition of another."""
+    sub = Ctx.__new__(Ctx)
+    sub.__dict__.update(ctx.__dict__)
+    sub.instances, sub.findings, sub.notes, sub.floors, sub.rules, sub.extra = [], [], [], {}, {}, {}
+    mod.run(sub)
+    n = 0
+    for i in sub.instances:
+        if i['rule'] in rename:
+            j = dict(i)
+            j['rule'] = rename[i['rule']]
+            ctx.instances.append(j)
+            if j['verdict'] != 'ok':
+                ctx.findings.append(j)
+            n += 1
+    return n
